@@ -11,7 +11,7 @@
    `can_show tg sub t`: the target can represent the value of token t (always for UTF-32 and
    ST::string targets, for UTF-16/UTF-32 sources, and for Latin-1 with the flag set).      *)
 From Coq Require Import NArith List Bool.
-From ST Require Import Base.Outcome Base.Units Utf.Spec Utf.Tokens Utf.Model Utf.ProofsGeneric Utf.ProofsC01 Utf.ProofsC02.
+From ST Require Import Base.Outcome Base.Units Utf.Spec Utf.Tokens Utf.Model Utf.ProofsGeneric Utf.ProofsC01 Utf.ProofsC02 Utf.ApiCoverage.
 Import ListNotations.
 Local Open Scope N_scope.
 
@@ -134,3 +134,9 @@ Example hypotheses_satisfiable :
   all_lt 256 [0x41; 0xC3; 0xA9; 0x80; 0xE2; 0x82] = true /\ fits [0x41; 0xC3; 0xA9; 0x80; 0xE2; 0x82] /\
   WF8 [0x41; 0xC3; 0xA9; 0x80; 0xE2; 0x82] = false /\ WF8 [0x41; 0xC3; 0xA9; 0xED; 0xA0; 0x80; 0xC0; 0x80] = true.
 Proof. exact c02_nonvacuous. Qed.
+
+(* ---- every conversion route declared in the headers (harvested from the AST on this run) is bound to its
+   Model.v transcription in Utf/ApiCoverage.v, so the statements above range over all of them ---- *)
+Theorem every_route_is_modelled : ST.Utf.ApiCoverage.routes_covered_b = true.
+Proof. exact ST.Utf.ApiCoverage.routes_covered. Qed.
+Print Assumptions every_route_is_modelled.
